@@ -76,7 +76,13 @@ def gen_interfere(r, tier):
         for c in range(ncyc):
             if c == at or r.chance(0.1):
                 t = []
-                if r.chance(0.25):
+                if kind != "cmd" and r.chance(0.12):
+                    # a register value no PWM can be (a foreign writer, a driver bug), while fan2go's target is the matching END
+                    # of the range: the value is foreign all the same and has to be replaced (seed C05j: readings were clamped to
+                    # 0..255 before anybody compared them)
+                    curve = r.pick([0, 255])
+                    t.append(f"pwm={r.pick([300, 1000, 256]) if curve == 255 else r.pick([-20, -1, -300])}")
+                elif r.chance(0.25):
                     # the third party anticipates fan2go: it sets the register to the very value the next cycle is going to
                     # request (the curve jumps to an end of its range at the same moment). The cycle then finds nothing to
                     # write - and everything it remembers must still be as after a write of its own (seed C05h: the
